@@ -6,7 +6,8 @@
    B = byte strings (list N).  compress/decompress/crc are arbitrary functions with
    decompress (compress x) = Some x. *)
 From HV Require Import Base.Prelude Storage.Format Storage.FormatProofs Storage.Lww Storage.LwwProofs
-  Storage.Writer Storage.WriterProofs Storage.Reader Storage.ReaderProofs Storage.ReplayProofs.
+  Storage.Writer Storage.WriterProofs Storage.Reader Storage.ReaderProofs Storage.ReplayProofs
+  Storage.ChronV2 Storage.ChronProofs.
 Local Open Scope N_scope.
 
 (* an entry with 1..65535 key bytes and < 2^32 payload bytes is read back exactly, whatever follows *)
@@ -39,7 +40,7 @@ Theorem C01_index_fold_is_lww :
   forall es k,
     mget K D keqb (replay K D keqb es) k = lww_get K D keqb (writes_of K D es) k /\
     NoDup (mkeys K D (replay K D keqb es)).
-Proof. intros K D keqb H es k. split; [exact (replay_lww K D keqb H es k) | exact (replay_nodup K D keqb H es)]. Qed.
+Proof. exact index_fold_is_lww. Qed.
 Print Assumptions C01_index_fold_is_lww.
 
 (* MAIN.  For every history of open/write/flush/sync/close operations in any number of
@@ -81,6 +82,36 @@ Theorem C01_replay_lww_existing_file :
 Proof. exact replay_lww_existing. Qed.
 Print Assumptions C01_replay_lww_existing_file.
 
+(* CHRONICLER.  Any history of Write (batches of treasures: deleted / encoded, insert or update)
+   / Sync / Close calls of the V2 chronicler on a fresh swamp, any flush placement: if every
+   underlying writer call succeeded and the history ends closed, the file loads to the
+   last-writer-wins state of the treasures (deleted => absent) under the swamp's name. *)
+Theorem C01_chronicler_replay_lww :
+  forall (compress : list N -> list N) (decompress : list N -> option (list N)) (crc : list N -> N),
+  (forall x, decompress (compress x) = Some x) ->
+  forall hm (name : list N) (cs : list (cop (list N) (list N))) st' tr acks f,
+  crun (list N) (list N) (list N) nlen nlen nlen (Reader.cfits compress) true [] name init cs = (st', tr, acks) ->
+  all_ok (map snd tr) = true -> s_w st' = None -> s_file st' = Some f ->
+  exists m nm,
+    load_index decompress crc (render compress crc hm f) = Some (m, nm) /\
+    (forall k, mget (list N) (list N) bytes_eqb m k =
+               lww_get (list N) (list N) bytes_eqb (flat_map cop_writes cs) k) /\
+    NoDup (mkeys (list N) (list N) m) /\ f_name f = name /\ (name <> [] -> nm = name).
+Proof. exact chronicler_replay_lww. Qed.
+Print Assumptions C01_chronicler_replay_lww.
+
+(* every chronicler history performs a run of the writer model (so all writer-level theorems,
+   including the ones about rejected calls, apply to it) *)
+Theorem C01_chronicler_is_a_writer_run :
+  forall (K D NM : Type) (klen : K -> N) (dlen : D -> N) (nmlen : NM -> N) (cfits : list (lentry K D) -> bool)
+         (guard : bool) (dnil : D) name cs st st' tr acks,
+  crun K D NM klen dlen nmlen cfits guard dnil name st cs = (st', tr, acks) ->
+  run K D NM klen dlen nmlen cfits guard st (map fst tr) = (st', map snd tr) /\
+  (all_ok (map snd tr) = true ->
+   flat_map ents (map fst tr) = flat_map (cop_entries K D dnil) cs).
+Proof. exact crun_run. Qed.
+Print Assumptions C01_chronicler_is_a_writer_run.
+
 (* histories with failing calls (any key/payload/name type): if no block exceeds the 4 GiB
    header fields, a call that returns an error changes nothing, and file + buffer always
    stand for exactly the accepted entries in order *)
@@ -115,13 +146,7 @@ Theorem C01_unencodable_rejected :
   (forall nm, MaxNameSize < nmlen nm -> step K D NM klen dlen nmlen cfits true init (OOpen nm) = (init, RErr)) /\
   (forall ops st, Inv K D NM klen dlen cfits st ->
      Inv K D NM klen dlen cfits (fst (run K D NM klen dlen nmlen cfits true st ops))).
-Proof.
-  intros K D NM klen dlen nmlen cfits. split; [|split; [|split]].
-  - exact (write_unencodable_rejected K D NM klen dlen nmlen cfits).
-  - exact (write_ok_encodable K D NM klen dlen nmlen cfits).
-  - exact (open_long_name_rejected K D NM klen dlen nmlen cfits).
-  - exact (run_inv K D NM klen dlen nmlen cfits).
-Qed.
+Proof. exact unencodable_rejected. Qed.
 Print Assumptions C01_unencodable_rejected.
 
 (* The writer of the pinned commit (guard = false) did not have the rejection clause: every
